@@ -429,7 +429,8 @@ def run_case(left: tuple, chain: list[tuple]) -> dict[str, Any]:
     filtered expression, rendered text, the source and the data used."""
     from liquid2 import RenderContext
     s = Src()
-    expr = s.left(left) + s.chain(chain)
+    s.left_src = s.left(left)
+    expr = s.left_src + s.chain(chain)
     src = "".join(s.pre) + "{{ " + expr + " }}"
     out: dict[str, Any] = {"src": src, "data": s.data}
     with Recorder() as rec:
@@ -467,6 +468,18 @@ def run_case(left: tuple, chain: list[tuple]) -> dict[str, Any]:
                 out["echo_src"] = "".join(s.pre) + "{% echo " + expr + " %}"
             except Exception as e:  # noqa: BLE001
                 out["echo"] = {"sync": ("exc", exc_term(e), type(e).__name__)}
+        # the left expression written by the `cycle` tag (a primitive item: a
+        # literal, a path, a template string with filtered interpolations, a
+        # captured value): must write what `{{ left }}` writes
+        out["cycle"] = {}
+        lsrc = s.left_src if hasattr(s, "left_src") else None
+        if lsrc is not None and "%}" not in lsrc:
+            try:
+                csrc = "".join(s.pre) + "{% cycle " + lsrc + ", 'zz' %}"
+                out["cycle"] = render_modes(env().from_string(csrc), s.data)
+                out["cycle_src"] = csrc
+            except Exception as e:  # noqa: BLE001
+                out["cycle"] = {"sync": ("exc", exc_term(e), type(e).__name__)}
     out["rec"] = rec
     return out
 
@@ -483,6 +496,9 @@ def c_case(left: tuple, chain: list[tuple], r: dict[str, Any]) -> tuple[str, str
     for other in [r.get("text_async")] + list(r.get("echo", {}).values()):
         if other is not None and other[:2] != r["text"][:2]:
             extra += " && rs_eqb (output L e ch) " + (f"(Ok {C.cstr(other[1])})" if other[0] == "ok" else other[1])
+    if left[0] in ("tmpl", "capture"):
+        for cy in r.get("cycle", {}).values():
+            extra += " && rs_eqb (output L e []) " + (f"(Ok {C.cstr(cy[1])})" if cy[0] == "ok" else cy[1])
     case = (f"(let L := {L} in let e := {le} in let ch := {ch} in "
             f"rv_eqb (typed L e ch) {ty} && rs_eqb (output L e ch) {tx}{extra})")
     model = f"let L := {L} in (typed L {le} {ch}, output L {le} {ch})"
@@ -906,14 +922,20 @@ def expression_level(chk: C.Check, r, n_random: int, max_len: int, budget_numera
             views = [("render", src, res["text"], render), ("render_async", src, res["text_async"], render_a),
                      ("echo render", esrc, res["echo"].get("sync"), render), ("echo render_async", esrc, res["echo"].get("async"), render_a)]
             structural = structural_chain(left, chain)
-            for how, vsrc, outcome, rfn in views:
+            if "cycle_src" in res:
+                st0 = structural_chain(left, [])
+                views += [("cycle render", res["cycle_src"], res["cycle"].get("sync"), render, st0),
+                          ("cycle render_async", res["cycle_src"], res["cycle"].get("async"), render_a, st0)]
+            for view in views:
+                how, vsrc, outcome, rfn = view[:4]
+                structural_v = view[4] if len(view) > 4 else structural
                 if outcome is None or outcome[0] != "ok":
                     continue
                 out = outcome[1]
                 stats["oracle_checked"] += 1
                 stats["modes"][how] = stats["modes"].get(how, 0) + 1
                 fail = syntactic_oracle(vsrc, out)
-                if fail is None and structural:
+                if fail is None and structural_v:
                     stats["origin_checked"] += 1
                     fail2 = origin_oracle(rfn, vsrc, data, out)
                     if fail2 is not None:
